@@ -193,6 +193,8 @@ def r_opsem(ctx, only=None):
             "Function2": AObj("Function", {"f2": S("v1"), "f3": S("v2")}, frozenset({"ro"})),
             "int": AScalar(S("c"), "int"),
             "float": AScalar(S("c"), "float"),
+            "str": AScalar(S("c"), "str"),          # a scalar that is not a number (np.isscalar('ab') is true): never a documented operand
+            "complex": AScalar(S("c"), "complex"),
         }
 
     c = S("c")
@@ -207,7 +209,7 @@ def r_opsem(ctx, only=None):
                 continue
             ctx.unit("%s.%s" % (cname, op))
             unary = len(params_of(fn)) == 1
-            kinds = [None] if unary else ["Point", "Expression", "Function", "int", "float", "self"]
+            kinds = [None] if unary else ["Point", "Expression", "Function", "int", "float", "str", "complex", "self"]
             for kind in kinds:
                 n_cases += 1
                 ops_ = operands()
